@@ -1359,3 +1359,149 @@ PROPS['C18'] = {
                  'on all 57 registers; the first-request clause follows from C01/C08 at the initial world and is exercised by the monitor',
     'exhaustive': True,
 }
+
+
+# ----------------------------------------------------------------------------- C01 / C07 / C08: builder calls from enable-rich states
+PARAM_OWNER = []   # (param addr, enable addr, mask) from the datasheet table
+for (_n, ereg, emask, params) in ds.PARAM_OWNERS:
+    for p_ in params:
+        PARAM_OWNER.append((ds.REGS[p_][0], ds.REGS[ereg][0], emask))
+ENABLE_REGS = (0x1F, 0x20, 0x2F)
+
+
+def builder_state_programs(api, rng, n):
+    """reach varied coherent states through accepted calls (interrupts enabled, sources, ODR, mapped pins), then one builder request"""
+    out = []
+    for k in range(n):
+        calls = []
+        odr = rng.choice(['Hz100', 'Hz200', 'Hz100', 'Hz50'])
+        calls.append(Call('config_accel', setters=[('with_odr', [odr])]))
+        for mk in ('config_gen1_int', 'config_gen2_int', 'config_actchg_int'):
+            calls.append(Call(mk, setters=[('with_src', [rng.choice(['AccFilt1', 'AccFilt2', 'AccFilt2'])])]))
+        if rng.random() < 0.6:
+            calls.append(Call('config_wkup_int', setters=[('with_axes', [rng.random() < 0.6, rng.random() < 0.5, rng.random() < 0.5])]))
+        if rng.random() < 0.5:
+            calls.append(Call('config_int_pins', setters=P.rand_setters(api, rng, api.maker['config_int_pins'], rng.randint(1, 4))))
+        b = api.maker['config_interrupts']
+        calls.append(Call('config_interrupts', setters=[(s['method'], [rng.random() < 0.6]) for s in rng.sample(b['setters'], rng.randint(2, 9))]))
+        for _ in range(rng.randint(1, 3)):
+            mk = rng.choice(sorted(api.maker))
+            nset = rng.choice([0, 1, 1, 2, 3])
+            calls.append(Call(mk, setters=P.rand_setters(api, rng, api.maker[mk], nset)))
+            if rng.random() < 0.2:
+                calls.append(Call(mk, setters=calls[-1].setters))      # re-apply the same request
+        out.append(Prog('bs%d' % k, rng.choice(['i2c', 'spi']), calls))
+    return out
+
+
+def check_builder_call(r, which):
+    """C01 / C07 / C08 on one builder call record (needs regs before / after)"""
+    if r.call.op not in dseval.MAKER_BUILDER or r.regs_before is None or r.call.faults:
+        return None
+    before, after = r.regs_before, r.regs
+    ev = implrun.reg_events(r.raw)
+    if r.status == 'panic':
+        return 'panic in %r' % r.call
+    if r.status == 'err':
+        if which in ('C01', 'C08') and (after != before or ev):
+            return 'rejected %r changed the device or caused bus traffic %r' % (r.call, ev)
+        return None
+    want = dseval.expected_block(r.call.op, r.call.setters, before)
+    if which == 'C01':
+        for a in range(128):
+            exp = want.get(a, before[a])
+            if after[a] != exp:
+                return 'after accepted %r register 0x%02X = 0x%02X, expected 0x%02X (before the call 0x%02X)' % (r.call, a, after[a], exp, before[a])
+        if r.shadow is not None:
+            pass
+        return None
+    regs = list(before)
+    writes = {}
+    for e in ev:
+        if e[0] == 'r':
+            return '%r reads register 0x%02X' % (r.call, e[1]) if which == 'C08' else None
+        if e[0] == '?':
+            return '%r: ill-framed access' % (r.call,)
+        if e[0] != 'w':
+            continue
+        a, v = e[1], e[2]
+        if which == 'C07':
+            for (p_, en, m) in PARAM_OWNER:
+                if p_ == a and regs[en] & m:
+                    return '%r writes parameter register 0x%02X <- 0x%02X while its interrupt is enabled on the device (0x%02X = 0x%02X)' % (r.call, a, v, en, regs[en])
+        writes.setdefault(a, []).append(v)
+        regs[a] = v
+    if which == 'C08':
+        for a, vs in writes.items():
+            if a in want and a not in ENABLE_REGS:
+                if want[a] == before[a]:
+                    return '%r writes block register 0x%02X although the device already holds the requested 0x%02X' % (r.call, a, before[a])
+            elif a in ENABLE_REGS and a not in want:
+                o = before[a]
+                if not (vs[0] & o == vs[0] and vs[0] != o and all(x & o == x for x in vs) and vs[-1] == o):
+                    return '%r writes enable register 0x%02X with %r (original 0x%02X): not a clear-then-restore toggle' % (r.call, a, ['0x%02X' % x for x in vs], o)
+            elif a in ENABLE_REGS and a in want:
+                if a != 0x2F and (want[a] == before[a] or vs != [want[a]]):
+                    return '%r writes its own enable register 0x%02X with %r (held 0x%02X, requested 0x%02X)' % (r.call, a, vs, before[a], want[a])
+            elif a not in want:
+                return '%r writes register 0x%02X outside its block and the enable registers' % (r.call, a)
+    return None
+
+
+def builder_monitor(pid):
+    def mon(api, rng, budget, variants):
+        programs = builder_state_programs(api, rng, budget)
+        recs = run_monitor_programs(programs)
+        viol, cases = [], 0
+        for p in programs:
+            for r in recs[p.id][1:]:
+                cases += 1
+                msg = check_builder_call(r, pid)
+                if msg:
+                    viol.append(violation(pid, p, msg))
+                    break
+        return {'cases': cases, 'violations': viol[:20], 'samples': [programs[0].describe()],
+                'notes': ['builder requests (no setter, single, several, re-applied) from coherent states with random interrupt enables, sources, ODR and '
+                          'pin maps reached through accepted calls; judged on the simulated chip against spec/datasheet.py']}
+    return mon
+
+
+def builder_judge(pid):
+    def j(prog, recs):
+        for r in recs[1:]:
+            m = check_builder_call(r, pid)
+            if m:
+                return m
+        return None
+    return j
+
+
+def builder_theorems():
+    d = json.load(open(os.path.join(COQ, 'spec/builder_thms.json')))
+    return [(m, n) for m, n in d['thm_mods']] + [('spec.BuilderProps', n) for n in d['device_theorems']]
+
+
+BUILDER_PARTIAL = ('PARTIAL: proved for 10 of the 12 builder bodies (accelerometer, interrupts, FIFO, auto-low-power, auto-wake-up, orientation, '
+                   'generic 1, generic 2, activity change, tap); the pin-mapping and wake-up builders are covered by the correspondence check and '
+                   'the monitor only (their verification conditions are not closed by the generic tactic yet)')
+for pid_, extra, stmt in (
+    ('C01', ['props.C01'], 'per builder, from every coherent state and for every byte-valued request: rejected with nothing changed, or accepted with the shadow = '
+            'previous shadow with the block replaced by the request, the device enables 0x1F/0x20/0x2F = the expected ones (temporarily cleared bits are '
+            'back) and every register outside block and enables untouched; with C16 the device holds the shadow on all 57 registers after every history'),
+    ('C07', ['props.C07'], 'per builder: every journal entry carries the DEVICE enables at the instant of that write (entries_match) and for every parameter '
+            'register of the datasheet owner table the owning enable bits are clear at that instant (c07_partial_meaning)'),
+    ('C08', ['props.C08'], 'per builder: no read; every write addresses the block or an enable register; a block register is written only with the requested value '
+            'and only if the device held a different one at call time; foreign enable registers follow clear-then-restore (toggle_ok), own ones own_ok; '
+            're-applying the current configuration writes no block register'),
+):
+    names = {'C01': ['c01_partial_history', 'c01_partial_fifo_instance'], 'C07': ['c07_partial_meaning'], 'C08': ['c08_no_read', 'c08_partial_entry_meaning', 'c08_partial_reapply']}[pid_]
+    PROPS[pid_] = {
+        'targets': ['spec/BuilderProps.vo', 'props/%s.vo' % pid_],
+        'theorems': (lambda names=names, pid_=pid_: builder_theorems() + [('props.' + pid_, n) for n in names]),
+        'corr_gen': lambda api, rng, n: builder_state_programs(api, rng, n),
+        'corr_n': (250, 4000), 'monitor': builder_monitor(pid_), 'monitor_n': (500, 20000), 'judge': builder_judge(pid_),
+        'statement': BUILDER_PARTIAL + '. ' + stmt,
+        'rule': 'symbolic execution of the generated write() bodies over an explicit record of 57 symbolic bytes, guarded mirrored writes merged into if-valued fields; '
+                'verification conditions closed by congruence and by kernel evaluation over the enable byte',
+        'assumptions': ['shadow bytes and request bytes are below 256 (what the API produces: C02)'],
+    }
